@@ -216,6 +216,23 @@ func init() {
 									}
 								}
 							}
+							// min(…, ceiling, …): not above the ceiling by construction
+							if mc, ok := ast.Unparen(rs.Results[0]).(*ast.CallExpr); ok && ceilObj != nil {
+								if id, ok := ast.Unparen(mc.Fun).(*ast.Ident); ok && id.Name == "min" {
+									if _, isB := cinfo.Uses[id].(*types.Builtin); isB {
+										has := false
+										for _, a := range mc.Args {
+											if identObjOrSel(cinfo, a) == ceilObj {
+												has = true
+											}
+										}
+										if has {
+											obs = append(obs, mkOb(c, "SLEEP.cap", cu, ord.next("return "+types.ExprString(rs.Results[0])+", nil"), rs, Proved, "the cap returned is the minimum of the ceiling and something else", true))
+											continue
+										}
+									}
+								}
+							}
 							xObj := identObjOrSel(cinfo, rs.Results[0])
 							construct := ord.next("return " + types.ExprString(rs.Results[0]) + ", nil")
 							if xObj == nil || ceilObj == nil {
